@@ -117,9 +117,10 @@ func (s *supSOFO) childTerminated(name gen.Atom, pid gen.PID, reason error) supA
 	var action supAction
 
 	delete(s.pids, pid)
+	// it can be in the wait list in any mode (childDisable puts the children it stops there)
+	delete(s.wait, pid)
 
 	if s.shutdown {
-		delete(s.wait, pid)
 		if len(s.wait) > 0 {
 			// return action with empty process list for termination
 			action.do = supActionTerminateChildren
